@@ -192,7 +192,13 @@ func TestVerifCodecExchange(t *testing.T) {
 			s.resp.Close()
 		}
 	}()
+	okTimeouts := 0
 	for _, c := range exchanges {
+		if okTimeouts >= 8 {
+			// the channel is broken (reported below for each of these cases); do not wait out a thousand time-outs
+			bad("exchange:aborted", "exchange phase stopped after repeated time-outs of exchanges that must succeed", nil, nil)
+			break
+		}
 		n++
 		dom := vDomain(c.Dom)
 		classes["exchange:"+c.Outcome+fmt.Sprintf(":dom%d", len(dom))] = true
@@ -224,9 +230,15 @@ func TestVerifCodecExchange(t *testing.T) {
 			}()
 			var got res
 			timedOut := false
-			wait := 1500 * time.Millisecond
-			if c.Outcome != "ok" && !strings.HasPrefix(c.Outcome, "response") {
-				wait = 250 * time.Millisecond
+			// generous one-sided bounds (a loopback exchange takes about a millisecond): 2 s, then 8 s on the retry
+			wait := 2 * time.Second
+			if attempt > 0 {
+				wait = 8 * time.Second
+			}
+			if c.Outcome == "request: frame error" {
+				wait = time.Second // no network involved: the error is returned synchronously
+			} else if c.Outcome == "request: name error" {
+				wait = 250 * time.Millisecond // only looks whether anything reaches the responder
 			}
 			select {
 			case got = <-ch:
@@ -249,6 +261,9 @@ func TestVerifCodecExchange(t *testing.T) {
 				if timedOut && attempt == 0 {
 					continue // a lost datagram: retry once
 				}
+				if timedOut {
+					okTimeouts++
+				}
 				if timedOut || got.err != nil {
 					bad("exchange:ok-expected:failed", fmt.Sprintf("request %d / response %d bytes under %s: timeout=%v err=%v", c.NReq, c.NResp, dom, timedOut, got.err), c, obs)
 				} else {
@@ -267,6 +282,7 @@ func TestVerifCodecExchange(t *testing.T) {
 					bad("exchange:oversized-response:no-error", fmt.Sprintf("response of %d bytes cannot fit one datagram, yet RequestAndRecv returned %d bytes without error (equal: %v)",
 						c.NResp, len(got.b), bytes.Equal(got.b, respp)), c, obs)
 				} else if timedOut {
+					okTimeouts++
 					bad("exchange:oversized-response:hang", "no error and no response", c, obs)
 				} else if len(seen) == 1 && !bytes.Equal(seen[0], reqp) {
 					bad("exchange:request-altered", "responder callback saw a different request", c, obs)
